@@ -14,10 +14,10 @@ import (
 // package is created or changed and the failure is surfaced. Without a cycle
 // exactly the first missing dependency is installed, at the highest
 // satisfying version.
-func lockGraphBody(r *explore.Run, rep *report.R, sc string, flags, n, row0 int, allOrders bool) {
+func lockGraphBody(r *explore.Run, rep *report.R, sc string, flags, n int, fixed []int, allOrders bool) {
 	vmap.Order = nil
 	defer func() { vmap.Order = nil }()
-	g := chooseRows(r, n, row0)
+	g := chooseRows(r, n, fixed...)
 	perm := chooseOrder(r, len(g.keys()), allOrders)
 	r.Logf("lock %s flags=%d order=%v", g, flags, perm)
 	pkgs := g.packages(func(int) string { return "v1.0.0" }, func(int, int) string { return ">=v1.0.0" })
@@ -86,7 +86,7 @@ func lockGraphBody(r *explore.Run, rep *report.R, sc string, flags, n, row0 int,
 	if cyc || len(missing) > 0 {
 		nt = report.Hash("lock", flags, g.String())
 	}
-	rep.Eval(sc, report.Hash("lock", class, o.resolved, o.err != nil, len(o.pkgs)), nt)
+	evalCase(rep, sc, report.Hash("lock", class, o.resolved, o.err != nil, len(o.pkgs)), nt)
 	if nt != "" && g.edges() >= 3 && cyc && len(missing) > 0 && wantSample(rep, "lock") {
 		rep.Sample(map[string]any{"part": "lock-graph", "lock": g.String(), "flags": flags, "map_order": perm, "cyclic": cyc, "missing": missing, "observed": o.String(), "choices": append([]int{}, r.Choices...), "scenario": sc})
 	}
